@@ -76,6 +76,7 @@ def units(tier, seed):
             ("U442", 400, "base", "small"),
             ("F", 1, "f", "full"),
         ]
+    plan.sort(key=lambda t: t[0] != "F")  # heavy feature family first
     us = []
     for name, csize, mode, grid in plan:
         n = len(nets.networks(name))
